@@ -276,6 +276,23 @@ pub fn gen(args: &Args, out: &mut dyn Write) {
             }
         }
     }
+    // 1d. long spans and tall triangles (more than 256, 512 pixels in one direction), judged on positions
+    if mode == "long" {
+        for i in 0..(if thorough { 400 } else { 40 }) {
+            let len = rng.range(258, 700);
+            let thin = rng.range(2, 5);
+            let wide = i % 2 == 0;
+            let mut v = [[rng.range(0, 3), rng.range(0, 2)], [len, rng.range(0, thin)], [rng.range(len / 3, len), thin]];
+            if !wide {
+                for p in v.iter_mut() { p.swap(0, 1); }
+            }
+            if i % 3 == 0 { v.swap(0, 2); }
+            let (ty, n) = TYS[i % TYS.len()];
+            let z: Vec<i64> = (0..3).map(|_| *rng.pick(&ZS)).collect();
+            let a = attrs(&mut rng, n, 32);
+            writeln!(out, "{}", json!({"k": format!("W{}-{}", args.seed, i), "s": 0, "v": v, "Z": z, "A": a, "ty": ty, "c05": 2, "zsc": 0, "asc": 0, "skip": 0})).unwrap();
+        }
+    }
     // 2. seeded random triangles on finer lattices / larger grids
     if mode == "random" || mode == "all" {
         let n = args.n.unwrap_or(if thorough { 400_000 } else { 30_000 });
